@@ -50,6 +50,13 @@ func ParseCertURI(input *url.URL) (CertURI, error) {
 		return nil, fmt.Errorf("SPIFFE ID must have 'spiffe' scheme")
 	}
 
+	// A SPIFFE ID is scheme, trust domain and path, nothing else: anything
+	// more would be carried into certificates but ignored when the identity
+	// is authorized.
+	if input.User != nil || input.RawQuery != "" || input.Fragment != "" {
+		return nil, fmt.Errorf("SPIFFE ID must not have user info, a query or a fragment")
+	}
+
 	// Path is the raw value of the path without url decoding values.
 	// RawPath is empty if there were no encoded values so we must
 	// check both.
